@@ -304,13 +304,17 @@ func (w *world) projectBoth() (map[string]*proj, error) {
 	return out, first
 }
 
+// violate: keys are "<input class>/<kind>/<phase>/<family>" so that a known finding can match a class by prefix.
 func (w *world) violate(key, detail string) {
+	if p := strings.Split(key, "/"); len(p) == 3 && (p[0] == "NotAuth" || p[0] == "Auth" || p[0] == "Selected" || strings.HasSuffix(p[0], "+idle")) {
+		key = p[1] + "/" + p[2] + "/" + p[0]
+	}
 	tail := w.log
 	if len(tail) > 12 {
 		tail = tail[len(tail)-12:]
 	}
 	acts := w.hist
-	w.r.Violate(w.family+"/"+key, detail+"\nlast steps:\n  "+strings.Join(tail, "\n  "),
+	w.r.Violate(key+"/"+w.family, detail+"\nlast steps:\n  "+strings.Join(tail, "\n  "),
 		map[string]interface{}{"family": w.family, "jail_ms": w.jailMs, "acts": acts})
 }
 
@@ -585,7 +589,7 @@ func (w *world) exec(a *sess.Act, preKey string) (bool, error) {
 				}
 			})
 			if since < time.Duration(w.jailMs)*time.Millisecond {
-				w.violate("jail/answered-early", fmt.Sprintf("%s by %s was answered (%s) %v after the third consecutive failed LOGIN was sent (its own round trip took %v); the configured jail time is %d ms",
+				w.violate("LOGIN/jail-answered-early", fmt.Sprintf("%s by %s was answered (%s) %v after the third consecutive failed LOGIN was sent (its own round trip took %v); the configured jail time is %d ms",
 					line.Text, a.S, o.Brief(), since.Round(time.Millisecond), took.Round(time.Millisecond), w.jailMs))
 			}
 			w.armed = false
